@@ -82,7 +82,10 @@ def build_data(spec):
             import sys
             tot = sum(Fraction(v) for v in xs)
             sign = -1.0 if tot > 0 else 1.0 if tot < 0 else r.choice([-1.0, 1.0])
-            xs.append(sign * r.choice([1.0, 0.5, 0.75, r.uniform(0.5, 1.0)]) * sys.float_info.max)
+            # (magnitudes up to 0.75 max: every exact partial sum then stays within 0.75 max, a quarter of the range away from
+            # overflow - with magnitudes up to max, an exact total of +1e290 whose floating-point value is -1e292 made the next,
+            # negative, item overflow a correctly rounded running sum: thorough sweep, seed 7)
+            xs.append(sign * r.choice([0.5, 0.75, 0.625, r.uniform(0.5, 0.75)]) * sys.float_info.max)
             continue
         elif kind in ('np_int64', 'np_int32'):
             # numpy fixed-width integers with a spread whose SQUARE does not fit the type (nanosecond timestamps a few
